@@ -511,7 +511,7 @@ example : parseDecimal "2.50".toList ≠ parseInteger "2".toList := by decide
 
 /- Full statement: two field values are keyed equal (`untagged`, what the code compares) exactly when
    they are equal in the XSD value space (`tagged`: primitive family × value).
-   FALSE for the pinned code: an xs:string whose text is `{ns}local` equals an xs:QName expanding to
+   FALSE for the current code: an xs:string whose text is `{ns}local` equals an xs:QName expanding to
    the same string (`strq_counterexample`, finding C08-F5).  Proved on the region that excludes a
    string compared with a QName. -/
 theorem value_space_partial (ns : NsMap) (t1 t2 : Ty) (l1 l2 : String) (a b : SVal)
